@@ -156,5 +156,3 @@ func firstLineOf(s string) string {
 	return s
 }
 
-func cmdCheck(args []string) int  { fmt.Println("not yet"); return 2 }
-func cmdReplay(args []string) int { fmt.Println("not yet"); return 2 }
